@@ -25,6 +25,12 @@ RULE = (
     ">=4 dispatches with the job side of max() decisive at least once and the "
     "machine side decisive at least once; exhaustive: >=2 jobs, >=3 ops."
 )
+RULE += (
+    " Thorough tier additionally, split among the workers: small-scope exhaustive "
+    "enumeration - all 29331 instances with job lengths (1) (2) (3) (1,1) (1,2) "
+    "(2,1) (2,2) (1,1,1) (1,1,2) (1,2,1) (2,1,1), machine sets {[0],[1],[0,1]}, "
+    "durations {0,1,3} - with every dispatch history of each (jsverif/smallscope.py)."
+)
 BUDGET = {"quick": 1000, "thorough": 12000}
 ASSUMPTIONS = [
     "jsverif/model.py RefState is the specification of start times",
@@ -267,8 +273,42 @@ def _exhaustive(case, ctx):
     ctx.nontrivial = n >= 3 and len(inst["durations"]) >= 2
 
 
+def worker_cases(tier, index, n):
+    if tier != "thorough":
+        return
+    from .. import smallscope
+
+    for inst in smallscope.shard(index, n):
+        yield {"mode": "small_scope", "inst": inst}
+
+
+def _small_scope(case, ctx):
+    from .. import smallscope
+
+    inst = case["inst"]
+    instance = build_instance(inst)
+    for prefix in smallscope.all_prefixes(inst):
+        d = Dispatcher(instance)
+        mod = ref(inst)
+        s = 0
+        for jj, mm in prefix:
+            d.dispatch(instance.jobs[jj][mod.next[jj]], mm)
+            s, _ = mod.apply(jj, mm)
+        j, m = prefix[-1]
+        p = mod.next[j] - 1
+        where = f"history {prefix}"
+        check_last(ctx, d, j, p, m, s, where)
+        check_tracking(ctx, inst, d, mod, where)
+        ctx.count("small_scope_nodes")
+    ctx.count("small_scope_instances")
+    ctx.label("mode=small_scope")
+    ctx.nontrivial = ref(inst).n_ops >= 3 and len(inst["durations"]) >= 2
+
+
 def check_case(case, ctx):
-    if case["mode"] == "exhaustive":
+    if case["mode"] == "small_scope":
+        _small_scope(case, ctx)
+    elif case["mode"] == "exhaustive":
         _exhaustive(case, ctx)
     else:
         _sequence(case, ctx)
